@@ -70,6 +70,8 @@ func (p *Pre) String(fn *ssa.Function) string {
 	switch p.Kind {
 	case "param>=0":
 		return n + " ≥ 0"
+	case "param>=1":
+		return n + " ≥ 1"
 	case "cell>=0":
 		return "*" + n + " ≥ 0"
 	case "len>=c":
@@ -216,6 +218,8 @@ func genContract(fn *ssa.Function) *Contract {
 		}
 		if isInteger(p.Type()) {
 			if b, ok := p.Type().Underlying().(*types.Basic); ok && b.Kind() == types.Int {
+				// the stronger candidate first: minimisation drops candidates in this order, so the weaker one survives when it suffices
+				c.Pres = append(c.Pres, &Pre{Kind: "param>=1", Param: j})
 				c.Pres = append(c.Pres, &Pre{Kind: "param>=0", Param: j})
 			}
 		}
@@ -701,6 +705,9 @@ func (fa *FA) installPres() {
 	for _, p := range ct.Pres {
 		if p.Adopted && p.Kind == "param>=0" {
 			fa.pre = append(fa.pre, ineqGE(fa.expand(fa.fn.Params[p.Param]), linConst(0)))
+		}
+		if p.Adopted && p.Kind == "param>=1" {
+			fa.pre = append(fa.pre, ineqGE(fa.expand(fa.fn.Params[p.Param]), linConst(1)))
 		}
 		if p.Adopted && p.Kind == "len>=c" {
 			if d := fa.sliceDesc(fa.fn.Params[p.Param]); d != nil {
